@@ -111,7 +111,8 @@ class Rec:
         step, lo, hi, _ = lattice(self.kind, c)
         out["upper_zero"] = bool(ub == 0)
         out["upper_offgrid"] = bool((F(ub) / step).denominator != 1)
-        out["upper_below_top"] = bool(0 < F(ub) < hi * step)
+        # 0.0 is a bound like any other since the fix of C02-relu-upper-zero (it used to be falsy)
+        out["upper_below_top"] = bool(0 <= F(ub) < hi * step)
         out["qclip"] = bool(c.get("qclip", 1))
     if c.get("route", "direct") != "direct":
       out["route"] = c["route"]
@@ -613,7 +614,7 @@ def _collect_scalar(run, rng, kind, cfg, family, jobs, recs):
   else:
     extra = ()
     ub = cfg.get("upper")
-    if ub:
+    if ub is not None:
       extra = (ub, ub - float(step) / 2, ub + float(step) / 2, 2 * ub, 4 * float(hi * step) + 7, 1000.0)
     xs = points(rng, step * (1 if lat is None else lat[3]), lo, hi, extra=extra)
     if kind == "qrelu" and cfg["slope_log"] is not None:
